@@ -60,6 +60,12 @@ CHECKS = {
  "C15": ("exploration", "online reference model of proposals, deposits and tallies checked after every block, plus twin-branch comparison for partially failing proposals",
          "Held on the histories observed: gov-module balance equals the stored deposits after every block, every deposit leaves exactly once (refund or burn), voting starts in the block where the total deposit first reaches the minimum applicable to the message type (community-pool spends: configured share of the request when larger), ends after the period of the type, is tallied with the quorum of the type; mixed-type proposals are rejected; a passed proposal whose k-th message fails equals the voted-down twin outside the gov store.",
          "Voting-power model assumes exchange rate 1 (no slashing in this workload); per-type parameters only change while no proposal of the type is open.", "4 C15"),
+ "C18": ("fault_enumeration", "tolerated-failure boundaries with the failure placed first / middle / last, compared by full multistore diff against the designated outcome computed on a twin branch",
+         "Held on the boundaries and failure points enumerated: observed events whose handler fails, inbound bridge calls carrying 1-3 tokens whose contract reverts late / loops to the gas cap / hits INVALID or whose k-th token is unconvertible (refund address equal to or different from the receiver), passed n-message proposals whose k-th message errors / reverts after writes / runs out of gas, and IBC packets whose conversion or memo call fails; the state afterwards equals the twin that failed at entry apart from the designated record.",
+         "Twins are copy-on-write branches with different code at the same address; IBC packets go through the real IBC core over a loop-back channel.", "4 C18"),
+ "C19": ("exploration", "loop-back IBC fixture (real IBC core + fx middleware on the real app): balance/ERC-20/supply snapshot oracle per packet, memo-caller monitor, refund-exactly-once and relation-record monitor under replays and interleavings over two channels",
+         "Held on the packets and endings observed: inbound packets over five denom kinds x receiver kinds x amounts x memo kinds (hostile packet data committed through the channel keeper) credit exactly the amount as ERC-20 (native for FX) to the hex receiver on a success acknowledgement and nothing on an error acknowledgement; memo calls run as hash(port/channel, sender); outbound transfers from the crossChain precompile end by ack-success / ack-error / timeout in random interleavings over two channels, each replayed: refund exact, in the original form, once; relation record gone.",
+         "ERC-20-originated outbound transfers exist only under a labelled fixture (see assumptions in the evidence); the remote chain is the other end of a loop-back channel.", "4 C19"),
 }
 NOT_YET = {}
 def load_props():
